@@ -988,10 +988,22 @@ def _decorate_new_with_invariants(new_func: CallableT) -> CallableT:
 
     def wrapper(*args, **kwargs):  # type: ignore
         """Pass the arguments to __new__ and check invariants on the result."""
-        instance = new_func(*args, **kwargs)
+        if (
+            new_func is object.__new__
+            and len(args) > 0
+            and getattr(args[0], "__init__", object.__init__) is not object.__init__
+        ):
+            # A sub-class defines its own ``__init__`` which consumes the arguments.
+            # ``object.__new__`` refuses any extra arguments once ``__new__`` has been overridden.
+            instance = new_func(args[0])
+        else:
+            instance = new_func(*args, **kwargs)
 
-        for invariant in instance.__class__.__invariants__:
-            _assert_invariant(contract=invariant, instance=instance)
+        # If the class of the instance defines ``__init__``, the instance is not constructed yet and
+        # the invariants are checked after ``__init__``.
+        if type(instance).__init__ is object.__init__:
+            for invariant in instance.__class__.__invariants__:
+                _assert_invariant(contract=invariant, instance=instance)
 
         return instance
 
